@@ -110,8 +110,9 @@ structure TinyLFU where
 def TinyLFU.new (counters : Nat) (seeds : List Nat) : TinyLFU :=
   { fc := FreqCounter.new counters seeds, dk := [], incs := 0, resetAt := counters }
 
-/-- A doorkeeper answer `b` for hash `h` is legal iff it is not a false negative. -/
-def TinyLFU.hasLegal (t : TinyLFU) (h : Nat) (b : Bool) : Bool := !(t.dk.contains h) || b
+/-- A doorkeeper answer `b` for hash `h` is legal iff it is not a false negative and — the filter having been
+    cleared and nothing set since — not a false positive either (an empty Bloom filter has no bit set). -/
+def TinyLFU.hasLegal (t : TinyLFU) (h : Nat) (b : Bool) : Bool := (!(t.dk.contains h) || b) && (!t.dk.isEmpty || !b)
 
 /-- `TinyLFU::estimate` given the doorkeeper's answer. -/
 def TinyLFU.estimate (t : TinyLFU) (h : Nat) (dkAnswer : Bool) : Option Nat :=
@@ -138,6 +139,7 @@ def TinyLFU.incrementFor (t : TinyLFU) (h : Nat) (added : Bool) : Option TinyLFU
     let t2 := { t1 with incs := t1.incs + 1 }
     some (if t2.incs ≥ t2.resetAt then t2.reset else t2)
 
-def TinyLFU.addLegal (t : TinyLFU) (h : Nat) (added : Bool) : Bool := !(t.dk.contains h) || !added
+/-- `add_if_missing` may not add a hash it holds, and MUST add into an empty filter. -/
+def TinyLFU.addLegal (t : TinyLFU) (h : Nat) (added : Bool) : Bool := (!(t.dk.contains h) || !added) && (!t.dk.isEmpty || added)
 
 end Cached
